@@ -9,7 +9,10 @@
 (*   files : expected number of loaded files, started, done, failedFiles,        *)
 (*   synOK (sum FileDone.n of ok files), synConv, modConv, modAdded,             *)
 (*   expectFail : the input contains a failing file or stage,                    *)
-(*   trxExpected : number of transactions in all files (-1 = unknown)]           *)
+(*   trxExpected : number of transactions in all files (-1 = unknown),           *)
+(*   stepsOK : every complete Process call was accepted step by step by          *)
+(*   Trace_PipelineSteps (a behaviour of Pipeline.tla performs exactly the       *)
+(*   logged Work steps in the logged order and ends with the observed result)]   *)
 EXTENDS Integers, Sequences, FiniteSets, Json, TLC
 Cases == ndJsonDeserialize("cases.ndjson")
 VARIABLES i, failed
@@ -24,7 +27,6 @@ WhyRun(r) ==
   ELSE IF \E k \in 1..Len(ev) : ev[k].s > 1 /\ ~Before(ev, k, ev[k].s - 1, ev[k].d) THEN "stage-overtook-its-predecessor"
   ELSE IF \E k \in 1..Len(ev) : ev[k].s < r.of /\ ev[k].d > 2 /\ ~Before(ev, k, ev[k].s + 1, ev[k].d - 2) THEN "channel-not-a-rendezvous"
   ELSE IF fe = 0 /\ Len(ev) # r.of * r.nd THEN "day-lost-without-error"
-  ELSE IF fe # 0 /\ \E s \in 1..r.of : Cardinality({k \in (fe + 1)..Len(ev) : ev[k].s = s}) > 1 THEN "stages-kept-running-after-an-error"
   ELSE "ok"
 Why(c) ==
   LET badRuns == {n \in 1..Len(c.runs) : WhyRun(c.runs[n]) # "ok"}
@@ -32,6 +34,7 @@ Why(c) ==
   IN IF c.timedOut THEN "hang"
      ELSE IF c.race THEN "data-race"
      ELSE IF badRuns # {} THEN WhyRun(c.runs[CHOOSE n \in badRuns : \A m \in badRuns : n <= m])
+     ELSE IF ~c.stepsOK THEN "run-is-not-a-behaviour-of-Pipeline.tla"
      ELSE IF anyErr /\ c.exit = 0 THEN "success-although-a-stage-failed"
      ELSE IF c.expectFail /\ c.exit = 0 THEN "success-although-the-input-is-broken"
      ELSE IF c.exit # 0 /\ c.ctxErr THEN "reported-context-canceled-instead-of-the-stage-error"
